@@ -271,6 +271,16 @@ func runCheck(id string, p plan, tier string, seed int64, scale float64, only st
 			hashes[h] = struct{}{}
 		}
 		infra = append(infra, res.infra...)
+		stuck := false
+		for _, l := range res.infra {
+			if strings.Contains(l, "exit status 3") {
+				stuck = true // the watchdog ended a process: a call into the code under test does not return
+			}
+		}
+		if stuck && len(res.replays) == 0 {
+			infra = append(infra, "the remaining stages were not run: the code under test does not return from a call (inconclusive)")
+			break
+		}
 		for _, rp := range res.replays {
 			r, _ := vlib.ReadReplay(rp)
 			sig := ""
@@ -480,6 +490,20 @@ func runStage(id string, idx int, s stage, tier string, seed int64, scale float6
 					b, _ := json.MarshalIndent(rp, "", " ")
 					os.WriteFile(replayOut, b, 0o644)
 				}
+				if _, e := os.Stat(replayOut); e != nil {
+					// The harness process itself died with a runtime fatal error (these cannot
+					// be recovered: unlock of an unlocked mutex, concurrent map writes, stack
+					// exhaustion, all goroutines asleep) inside the code under test. For the
+					// property that demands crash-freedom / completion of that code this is
+					// the violation; the replay re-runs the very same process.
+					if sig, exc := fatalInSUT(string(out)); sig != "" && crashProp[s.Harness] == id {
+						cc, _ := json.Marshal(crashCase{Harness: s.Harness, Race: s.Race, Args: args, Env: append([]string{"VERIF_PROP=" + id, "VERIF_TIER=" + tier, "VERIF_STAGE=" + s.Name, fmt.Sprintf("VERIF_N=%d", per), fmt.Sprintf("VERIF_SHARD=%d", sh), fmt.Sprintf("VERIF_SHARDS=%d", shards)}, s.Env...)})
+						rp := &vlib.Replay{Property: id, Harness: s.Harness, Kind: "crash", Case: cc,
+							Violation: &vlib.Violation{Property: id, Signature: "crash/" + sig, Detail: "the process running the code under test died: " + exc}}
+						b, _ := json.MarshalIndent(rp, "", " ")
+						os.WriteFile(replayOut, b, 0o644)
+					}
+				}
 				if _, e := os.Stat(replayOut); e == nil {
 					res.replays = append(res.replays, replayOut)
 				} else {
@@ -559,11 +583,83 @@ func readStats(path string) *vlib.Stats {
 
 var lastReplaySig, lastReplayDetail string
 
+// crashProp: the property that a death of the process inside the code driven by
+// that harness violates (C18: seat operations never crash; C06: every step
+// completes and the hand finishes; C09: no history loses the regulator).
+var crashProp = map[string]string{"seats": "C18", "hand": "C06", "mtt": "C09"}
+
+type crashCase struct {
+	Harness string   `json:"harness"`
+	Race    bool     `json:"race"`
+	Args    []string `json:"args"`
+	Env     []string `json:"env"`
+}
+
+// fatalInSUT recognises a Go runtime fatal error whose stack runs through the
+// repository under test.
+func fatalInSUT(out string) (sig, excerpt string) {
+	i := strings.Index(out, "fatal error: ")
+	if i < 0 {
+		return "", ""
+	}
+	rest := out[i:]
+	if !strings.Contains(rest, "github.com/weedbox/pokerface") {
+		return "", ""
+	}
+	line := rest[len("fatal error: "):]
+	if j := strings.IndexByte(line, '\n'); j >= 0 {
+		line = line[:j]
+	}
+	if len(rest) > 2500 {
+		rest = rest[:2500]
+	}
+	return strings.TrimSpace(line), rest
+}
+
+func replayCrash(id, file string, r *vlib.Replay, verbose bool) int {
+	var c crashCase
+	if json.Unmarshal(r.Case, &c) != nil || c.Harness == "" {
+		return 2
+	}
+	bin, err := build(c.Harness, c.Race)
+	if err != nil {
+		fmt.Fprintln(os.Stderr, err)
+		return 2
+	}
+	tmp, _ := os.MkdirTemp("", "vcheck-crash-")
+	defer os.RemoveAll(tmp)
+	cmd := exec.Command(bin, c.Args...)
+	cmd.Dir = tmp
+	cmd.Env = append(append(os.Environ(), c.Env...), "VERIF_OUT="+filepath.Join(tmp, "stats.json"), "VERIF_REPLAY_OUT="+filepath.Join(tmp, "replay.json"))
+	out, err := cmd.CombinedOutput()
+	if verbose {
+		s := string(out)
+		if len(s) > 4000 {
+			s = s[:4000]
+		}
+		fmt.Print(s)
+	}
+	if sig, exc := fatalInSUT(string(out)); sig != "" {
+		lastReplaySig, lastReplayDetail = "crash/"+sig, exc
+		if verbose {
+			fmt.Printf("the process died again: %s\nVIOLATION property=%s replay=%s\n", sig, id, file)
+		}
+		return 1
+	}
+	if err == nil {
+		return 0
+	}
+	return 2
+}
+
 func runReplay(id, file string, verbose bool) int {
 	r, err := vlib.ReadReplay(file)
 	if err != nil {
 		fmt.Fprintf(os.Stderr, "replay %s: %v\n", file, err)
 		return 2
+	}
+	if r.Kind == "crash" {
+		return replayCrash(id, file, r, verbose)
 	}
 	race := r.Harness == "seats-race"
 	h := strings.TrimSuffix(r.Harness, "-race")
